@@ -35,7 +35,7 @@ extern "C" __attribute__((used)) const char* __ubsan_default_options() {
 }
 extern "C" __attribute__((used)) const char* __tsan_default_options() {
   return "exitcode=66:halt_on_error=1:report_signal_unsafe=0:"
-         "second_deadlock_stack=1";
+         "second_deadlock_stack=1:atexit_sleep_ms=0";
 }
 
 using namespace sim;
@@ -107,23 +107,26 @@ static void dumpLog() {
 }
 
 static void onTerminate() {
-  std::string what = "terminate";
-  if (auto ep = std::current_exception()) {
-    try {
-      std::rethrow_exception(ep);
-    } catch (const std::exception& e) {
-      what = std::string("uncaught exception: ") + e.what();
-    } catch (const SimStop&) {
-      what = "uncaught SimStop";
-    } catch (...) {
-      what = "uncaught non-std exception";
+  {
+    TsanIgnore ig;
+    std::string what = "terminate";
+    if (auto ep = std::current_exception()) {
+      try {
+        std::rethrow_exception(ep);
+      } catch (const std::exception& e) {
+        what = std::string("uncaught exception: ") + e.what();
+      } catch (const SimStop&) {
+        what = "uncaught SimStop";
+      } catch (...) {
+        what = "uncaught non-std exception";
+      }
     }
+    R.in_daemon = false;
+    R.violations.insert(R.violations.begin(), {"crash.terminate", what});
+    emitResult("violation");
+    if (g_dumpLog)
+      dumpLog();
   }
-  R.in_daemon = false;
-  R.violations.insert(R.violations.begin(), {"crash.terminate", what});
-  emitResult("violation");
-  if (g_dumpLog)
-    dumpLog();
   _exit(78);
 }
 
